@@ -76,7 +76,9 @@ class EvolutionStrategyOptimizer(EvolutionaryAlgorithmOptimizer):
             if self.conv.not_in_constraint(pos_new):
                 return pos_new
 
-            return self.p_current.move_climb(pos_new)
+            pos_new = self.p_current.move_climb(pos_new)
+            p_worst.pos_new = pos_new
+            return pos_new
 
     @EvolutionaryAlgorithmOptimizer.track_new_pos
     def init_pos(self):
